@@ -218,6 +218,21 @@ Definition read_payload (asfound : bool) (len max avail : N) : rd * N (* bytes a
     if two63 <=? len then (RdErr, 0)
     else (if avail <? len then RdErr else RdOk, N.min len avail * 2 + 512).
 
+(* Count-driven handlers (inv, headers in tracking mode, addr): the declared item count drives a
+   loop that reads one fixed-size item at a time straight from the connection and stops at the
+   first read error; no list is sized by the count.  [avail] = the bytes that will arrive after
+   the count.  Result: outcome, items handled, item slots allocated.
+   presized: the list is allocated for the declared count before the loop (the shape of the
+   seeded change C15d); the Go runtime panics in makeslice when count * 8 bytes exceeds its
+   2^48-byte limit and otherwise allocates (and, far beyond the machine's memory, aborts). *)
+Definition two45 : N := 35184372088832.
+Definition read_items (presized : bool) (count item avail : N) : rd * N * N :=
+  let can := avail / item in
+  let n := N.min count can in
+  let out := if count <=? can then RdOk else RdErr in
+  if presized then (if two45 <? count then (RdPanic, 0, 0) else (out, n, count))
+  else (out, n, n).
+
 (* ---------------------------------------------------------------------------------------- *)
 (* correspondence: a scripted session *)
 
